@@ -185,7 +185,43 @@ def lookahead(ctx: Ctx, py: PyProgram, rule: str = "C01.3/lookahead-isolation", 
     ctx.sample({"iter_decode_raises": sorted(raises), "fusion_lookahead_handles": sorted(set().union(*[_handler_classes(h) for t, tgt in pulls if t is not first_try for h in t.handlers]))})
 
 
+def window_unaltered(ctx: Ctx, py: PyProgram, rule: str = "C01.4/window", hooks: tuple = ("SC62015.get_instruction_info", "SC62015.get_instruction_text", "SC62015.get_instruction_low_level_il")) -> None:
+    """The bytes decoded are the bytes supplied: (a) a hook hands its own `data` / `addr` parameters to decode() without rebinding them
+    first (a truncated window cuts a prefixed instruction in two; the lone prefix then passes the round-trip guard); (b) decode()
+    wraps the buffer it is given in a Decoder as it is - no padding, slicing or concatenation (padding completes a truncated
+    instruction, so a length larger than the buffer is reported)."""
+    n = 0
+    for q in hooks:
+        fn = py.func(isa.ARCH_PY, q)
+        params = {a.arg for a in fn.args.args if a.arg != "self"}
+        calls = [c for c in ast.walk(fn) if isinstance(c, ast.Call) and unparse(c.func) == "decode"]
+        for c in calls:
+            for a in c.args[:2]:
+                n += 1
+                if not (isinstance(a, ast.Name) and a.id in params):
+                    ctx.violation(rule, key_of(isa.ARCH_PY, q, "decode() is not given the hook's own parameter"), f"{q} decodes `{unparse(a)}`, not the bytes/address it was called with", f"{isa.ARCH_PY}:{c.lineno}")
+                    continue
+                rebinds = [x for x in ast.walk(fn) if isinstance(x, (ast.Assign, ast.AugAssign, ast.AnnAssign)) and x.lineno <= c.lineno
+                           and any(isinstance(t, ast.Name) and t.id == a.id for t in (x.targets if isinstance(x, ast.Assign) else [x.target]))]
+                if rebinds:
+                    ctx.violation(rule, key_of(isa.ARCH_PY, q, f"`{a.id}` rebound before decode()"),
+                                  f"{q} rebinds `{a.id}` with `{unparse(rebinds[0])[:70]}` before decoding: the decoder no longer sees the window the caller supplied, so this hook and the other consumers "
+                                  "can disagree on whether, and how long, the instruction is", f"{isa.ARCH_PY}:{rebinds[0].lineno}")
+    dfn = py.func(isa.OPCODES_PY, "decode")
+    dparams = [a.arg for a in dfn.args.args]
+    for c in ast.walk(dfn):
+        if isinstance(c, ast.Call) and unparse(c.func) == "Decoder" and c.args:
+            n += 1
+            t = unparse(c.args[0]).replace(" ", "")
+            if t not in (dparams[0], f"bytearray({dparams[0]})", f"bytes({dparams[0]})"):
+                ctx.violation(rule, key_of(isa.OPCODES_PY, "decode", "buffer altered before decoding"),
+                              f"decode() wraps `{unparse(c.args[0])[:80]}` instead of the buffer it was given: bytes that were not supplied take part in decoding, so a truncated instruction is accepted with a "
+                              "length larger than the buffer", f"{isa.OPCODES_PY}:{c.lineno}")
+    ctx.instance(rule, "decode() arguments of the hooks are their own unrebound parameters; decode() wraps the supplied buffer unaltered", n, 3)
+
+
 def consumers(ctx: Ctx, py: PyProgram) -> None:
+    window_unaltered(ctx, py)
     hooks = ["SC62015.get_instruction_info", "SC62015.get_instruction_text", "SC62015.get_instruction_low_level_il"]
     sets = {}
     n = 0
